@@ -209,6 +209,19 @@ for pi, p in enumerate(ctx + peers()[:4] + random_peers(db_only=True, count=(6 i
                 a, b = full(json_notes(ref_j, c, n) or {}), full(json_notes(doc, c, n) or {})
                 if a != b:
                     fail({'order-peer': pi, 'how': how, 'category': c, 'name': n}, {how: b}, {'original order': a}, 'position-json')
+# a name advertised more than once: every occurrence carries the notes of a single occurrence (JSON entries are per occurrence)
+for c, n in (('key', 'ssh-rsa'), ('key', 'ssh-dss'), ('kex', 'diffie-hellman-group14-sha1'), ('enc', '3des-cbc'), ('mac', 'hmac-sha1'), ('kex', 'curve25519-sha256')) + tuple(
+        (c2, n2) for c2 in ('kex', 'key', 'enc', 'mac') for n2, e2 in DB[c2].items() if len(e2) >= 4 and not n2.endswith('-*'))[:12]:
+    cases += 1
+    p = dict(base); p[c] = [n, base[c][0], n] if n != base[c][0] else [n, n]
+    tf, doc = render(p)
+    ents = [e for e in doc[c] if e['algorithm'] == n]
+    p1 = dict(base); p1[c] = [n]
+    tf1, doc1 = render(p1)
+    one = [e for e in doc1[c] if e['algorithm'] == n][0]['notes']
+    for i, e in enumerate(ents):
+        if e['notes'] != one:
+            fail({'category': c, 'name': n, 'occurrence': i}, {'notes': e['notes']}, {'notes of a single occurrence': one}, 'duplicate-json')
 # unknown names: flagged as unknown in every view, never presented as good
 for c, n in (('kex', 'foo-kex@example.com'), ('key', 'ssh-foo'), ('enc', 'bar-cipher'), ('mac', 'hmac-foo'), ('kex', 'gss-foo-' + GSS)):
     cases += 1
